@@ -94,7 +94,115 @@ TARGETS = {"server": ["generate", "server", "--name", "verif"], "client": ["gene
            "cli": ["generate", "cli", "--name", "verif"]}
 
 
+def nested_spec():
+    """anonymous schemas everywhere, so that model planning has to lift them into new definitions"""
+    inner = {"type": "object", "description": NEUTRAL, "properties": {"deep": {"type": "object", "properties": {"leaf": {"type": "string", "description": NEUTRAL}}}}}
+    return {
+        "swagger": "2.0", "info": {"title": "nested", "version": "2", "description": NEUTRAL},
+        "basePath": "/", "consumes": ["application/json"], "produces": ["application/json"],
+        "paths": {"/n": {"put": {"operationId": "putN", "description": NEUTRAL,
+            "parameters": [{"name": "body", "in": "body", "required": True, "schema": {"type": "object", "required": ["a"], "properties": {
+                "a": {"type": "array", "items": {"type": "object", "properties": {"x": {"type": "integer", "description": NEUTRAL}}}},
+                "m": {"type": "object", "additionalProperties": {"type": "object", "properties": {"y": {"type": "string"}}}}}}}],
+            "responses": {"200": {"description": NEUTRAL, "schema": {"type": "array", "items": inner}},
+                          "default": {"description": NEUTRAL, "schema": {"$ref": "#/definitions/composed"}}}}}},
+        "definitions": {
+            "base": {"type": "object", "properties": {"id": {"type": "integer"}}},
+            "composed": {"allOf": [{"$ref": "#/definitions/base"}, {"type": "object", "description": NEUTRAL, "properties": {"extra": inner}}]},
+            "tuple": {"type": "array", "items": [{"type": "string"}, {"type": "object", "properties": {"t": {"type": "boolean"}}}]},
+            "withMap": {"type": "object", "properties": {"p": {"type": "string", "description": NEUTRAL}}, "additionalProperties": {"type": "array", "items": {"type": "object", "properties": {"z": {"type": "number"}}}}}}}
+
+
+CONTENT = {
+    "plain": "plain text", "backtick": "a`b``c` + \"x\" + `", "dquote": 'say "hi" \'there\'', "backslash": "C:\\dir\\name \\n \\",
+    "newline": "line1\nline2\r\nline3", "control": "bell\u0007 esc\u001b tab\t", "nonascii": "h\u00e9llo w\u00f6rld \u2713 \u65e5\u672c",
+    "template": "{{ .Name }} ${x} %s %d %%", "html": "<b>&amp;</b> <script>",
+}
+
+
+def check_c10(run):
+    from server_family import build_server, run_driver
+    vh = run.build_vh()
+    mc = run.tlc("Embed", "MCEmbed", workers=1, timeout=600)
+    if not mc["ok"]:
+        raise Infra("Embed design check failed: " + mc["out"][-2000:])
+    gen = run.tlc("GenEmbed", "GenEmbed", workers=1, timeout=600)
+    cases = sorted((e for t, e in gen["emitted"] if t == "CASE"), key=lambda c: json.dumps(c, sort_keys=True))
+    if run.tier == "quick":
+        cases = [c for c in cases if c["content"] == "plain" or (c["fmt"], c["mode"]) in (("json", "minimal"), ("yaml", "expand"), ("json", "full"))]
+    flags = {"minimal": [], "full": ["--with-flatten=full"], "expand": ["--with-expand"]}
+
+    def one(i):
+        c = cases[i]
+        doc = base_spec() if c["doc"] == "rich" else nested_spec()
+        for s in sites(doc):
+            d = doc
+            for k in s[:-1]:
+                d = d[k]
+            if d[s[-1]] == NEUTRAL:
+                d[s[-1]] = CONTENT[c["content"]]
+        jp = run.path("embed-%d.json" % i); json.dump(doc, open(jp, "w"))
+        sp = jp
+        if c["fmt"] == "yaml":
+            sp = run.path("embed-%d.yaml" % i)
+            run.sh([vh, "to-yaml", jp, sp])
+        drv, err = build_server(run, "e%d" % i, sp, extra_flags=flags[c["mode"]])
+        ev = dict(ev="Embedded", case=c, built=bool(drv), err=err[-400:] if not drv else "")
+        blank = dict(input="-", orig="-", served="-", inputPaths="-", flatPaths="-", inputSecurity="-", flatSecurity="-", missingDefs=0)
+        if not drv:
+            ev.update(blank)
+            ev["refused"] = err.startswith("generate")
+            return ev
+        base = doc.get("basePath", "/").rstrip("/")
+        start, resp = run_driver(run, drv, [dict(id=0, method="GET", path=base + "/swagger.json", rawQuery="", headers={}, full=True),
+                                            dict(id=1, method="GET", path="/swagger.json", rawQuery="", headers={}, full=True)], "e%d" % i)
+        open(run.path("orig-%d.b64" % i), "w").write(start["swaggerJSON"])
+        open(run.path("flat-%d.b64" % i), "w").write(start["flatSwaggerJSON"])
+        import base64
+        served = run.path("served-%d.json" % i)
+        ok = [r for r in resp if r["status"] == 200]
+        open(served, "wb").write(base64.b64decode(ok[0]["fullBody"]) if ok else b"{}")
+        cmp_ = json.loads(run.sh([vh, "embed-compare", "-input", sp, "-orig", run.path("orig-%d.b64" % i),
+                                  "-flat", run.path("flat-%d.b64" % i), "-served", served]).stdout)
+        ev.update({k: cmp_.get(k, "-") for k in blank})
+        ev["missing"] = cmp_.get("missing", [])
+        ev["servedStatus"] = ok[0]["status"] if ok else resp[0]["status"]
+        ev["expandErr"] = cmp_.get("expandErr", "")
+        shutil.rmtree(os.path.join(run.work, "srv-e%d" % i), ignore_errors=True)
+        return ev
+
+    with concurrent.futures.ThreadPoolExecutor(max_workers=12) as ex:
+        events = list(ex.map(one, range(len(cases))))
+    nobuild = [e for e in events if not e["built"] and not e.get("refused")]
+    tpath = run.path("trace.ndjson"); write_ndjson(tpath, events)
+    r = run.tlc("TraceEmbed", "TraceEmbed", workers=1, timeout=3000, files={"trace.ndjson": tpath}, allow_fail=True)
+    if r["depth"] != len(events) + 1 or not r["ok"]:
+        raise Infra("trace not fully consumed: depth %d of %d lines\n%s" % (r["depth"], len(events), r["out"][-3000:]))
+    seen = set()
+    for t, e in r["emitted"]:
+        if t == "REJECT" and e["line"] not in seen:
+            seen.add(e["line"])
+            ev = events[e["line"] - 1]; c = ev["case"]
+            sig = "%s | doc=%s mode=%s" % (e["why"], c["doc"], c["mode"])
+            if "flattened" in e["why"] or "definition" in e["why"]:
+                sig += " missing=%s" % ",".join(sorted(ev.get("missing", []))[:4])
+            else:
+                sig += " fmt=%s content=%s" % (c["fmt"], c["content"])
+            run.violations.append(dict(signature=sig, detail=ev))
+    built = sum(1 for e in events if e["built"])
+    if built < len(events) // 2:
+        raise Infra("most servers could not be built: " + (nobuild[0]["err"] if nobuild else events[0]["err"]))
+    cov = dict(states=mc["states"] + gen["states"], transitions=mc["transitions"] + gen["transitions"], traces_validated_against_impl=built,
+               evaluations=len(events), distinct_nontrivial=built,
+               rule="documents {rich, nested anonymous schemas} x input format {json, yaml} x flatten mode {minimal, full, expand} x string content class (quick: all modes/formats with plain content + content classes under three mode/format pairs)",
+               samples=[e["case"] for e in events[:3]], servers_built=built, not_built=len(events) - built, rejected_events=len(seen))
+    return finish(run, "model_checking", cov, ["spec.ExpandSpec and loads (pinned dependencies) resolve $refs faithfully",
+                                               "the YAML rendering of the input is produced by yaml.v3 with double-quoted scalars"])
+
+
 def check(run, replay=None):
+    if run.pid == "C10":
+        return check_c10(run)
     vh = run.build_vh(); swagger = run.build_swagger()
     mc = run.tlc("GoLex", "MCGoLex", workers=1, timeout=900)
     if not mc["ok"]:
